@@ -223,7 +223,16 @@ static void observe(World &w, const char *tags) {
       const std::vector<int> &mo = w.m[j].v;
       if ((long)o.size() != (long)mo.size()) continue;
       int bits = (cv == o) | (cv != o) << 1 | (cv < o) << 2 | (cv <= o) << 3 | (cv > o) << 4 | (cv >= o) << 5;
-      int want = (mv == mo) | (mv != mo) << 1 | (mv < mo) << 2 | (mv <= mo) << 3 | (mv > mo) << 4 | (mv >= mo) << 5;
+      int want;
+      if constexpr (E::tracked) {
+        want = (mv == mo) | (mv != mo) << 1 | (mv < mo) << 2 | (mv <= mo) << 3 | (mv > mo) << 4 | (mv >= mo) << 5;
+      } else {
+        // the reference is std::vector<T> itself (element comparison of T, e.g. signed bytes with negative values)
+        std::vector<T> ra, rb;
+        for (int x : mv) ra.push_back(E::make(x));
+        for (int x : mo) rb.push_back(E::make(x));
+        want = (ra == rb) | (ra != rb) << 1 | (ra < rb) << 2 | (ra <= rb) << 3 | (ra > rb) << 4 | (ra >= rb) << 5;
+      }
       dig(bits);
       if (bits != want) vf::fail(tags, "comparison operators between slots %d and %d give %d, std::vector gives %d", i, j, bits, want);
     }
